@@ -634,8 +634,15 @@ class Drillhole(Points):
                 np.ones(self.n_vertices - input_values.shape[0]) * np.nan, input_values
             ]
         else:
+            # vertices added since the depths were last set (by an interval entry
+            # of the same call) have no depth of their own: keep both aligned
+            current = self.depths.values
+            if len(current) < self.n_vertices:
+                current = np.r_[
+                    current, np.ones(self.n_vertices - len(current)) * np.nan
+                ]
             depths, indices = merge_arrays(
-                self.depths.values,
+                current,
                 depth,
                 return_mapping=True,
                 collocation_distance=collocation_distance,
